@@ -66,7 +66,7 @@ def _check_cli(cases):
     wd = par.workdir()
     hook = os.path.join(wd, "cli_hook.ndjson")
     paths = {"FILE1": os.path.join(wd, "FILE1"), "FILE2": os.path.join(wd, "FILE2"), "CLIM": os.path.join(wd, "CLIM"),
-             "CFG": os.path.join(wd, "CFG"), "MISSINGFILE": os.path.join(wd, "does-not-exist")}
+             "CFG": os.path.join(wd, "CFG"), "CFG2": os.path.join(wd, "CFG2"), "MISSINGFILE": os.path.join(wd, "does-not-exist")}
     written = None
     for c in cases:
         if written is None:
@@ -79,9 +79,11 @@ def _check_cli(cases):
         for v in c["variants"]:
             with open(paths["CFG"], "w") as f:
                 f.write(" ".join(paths.get(t, t) for t in v["config"]) + "\n")
+            with open(paths["CFG2"], "w") as f:
+                f.write(" ".join(paths.get(t, t) for t in v.get("config2", [])) + "\n")
             argv = [paths.get(t, t) for t in v["argv"]]
-            shown = " ".join(v["argv"]) + ((" [CFG: %s]" % " ".join(v["config"])) if v["config"] else "")
-            rep = {"kind": "cli", "argv": v["argv"], "config": v["config"], "expected": exp, "files": c["files"], "clim": c["clim"]}
+            shown = " ".join(v["argv"]) + ((" [CFG: %s]" % " ".join(v["config"])) if v["config"] else "") + ((" [CFG2: %s]" % " ".join(v["config2"])) if v.get("config2") else "")
+            rep = {"kind": "cli", "argv": v["argv"], "config": v["config"], "config2": v.get("config2", []), "expected": exp, "files": c["files"], "clim": c["clim"]}
             open(hook, "w").close()
             os.environ["VERIF_TLA_TRACE"] = hook
             try:
@@ -91,6 +93,7 @@ def _check_cli(cases):
             with open(hook) as hf:
                 events = [_json.loads(x) for x in hf if x.strip()]
             traces.append({"argv": argv, "cfgname": paths["CFG"], "config": [paths.get(t, t) for t in v["config"]],
+                           "cfgname2": paths["CFG2"], "config2": [paths.get(t, t) for t in v.get("config2", [])],
                            "events": [{k: ("(unset)" if val is None else val) for k, val in e.items()}
                                       for e in events if e["ev"] in ("CliSpliced", "Token", "Parsed", "ErrorExit")]} if events else {"nohooks": True})
             n += 1
@@ -108,7 +111,7 @@ def _check_cli(cases):
             if exp["status"] == "empty":
                 header, rows = table.parse(text, "csv")
                 nums = [x for r in rows for x in r[-2:] if x not in ("nan", "")]
-                if "-acc" in v["argv"] + v["config"]:
+                if "-acc" in v["argv"] + v["config"] + v.get("config2", []):
                     nums = [x for x in nums if _isnum(x) and float(x) != 0]      # envelope: the running sum of no data is 0
                 if status == "ok" and any(_isnum(x) for x in nums):
                     divs.append(("cli:number-from-empty-selection", "%s: selection leaves nothing but numbers were printed: %r" % (shown, clean[:200]), rep))
